@@ -26,7 +26,7 @@ static const std::vector<mpq_class> CUBIC = {mq(2), mq(-1), mq(3), mq(-1, 2)};  
 template <class T, size_t d>
 struct Weight {
   static T f(const T &x) {
-    if constexpr (d <= 3) {
+    if constexpr (d != 4) {
       T r = 1;
       for (size_t i = 0; i < d; i++) r *= x;
       return r;
@@ -34,9 +34,9 @@ struct Weight {
       return T(2) - x + T(3) * x * x - x * x * x / T(2);
     }
   }
-  static constexpr size_t degree = d <= 3 ? d : 3;
+  static constexpr size_t degree = d != 4 ? d : 3;   // d == 4 stands for the generic cubic; 5 and 6 are x^5, x^6
   static Poly poly() {
-    if constexpr (d <= 3) {
+    if constexpr (d != 4) {
       Poly p(d + 1, mpq_class(0));
       p[d] = 1;
       return p;
@@ -47,7 +47,7 @@ struct Weight {
   template <size_t oa, size_t ob>
   static T analytic(const Spline<T, oa> &a, const Spline<T, ob> &b) {
     if constexpr (d == 0) return BilinearForm{IdentityOperator{}}(a, b);
-    else if constexpr (d <= 3) return BilinearForm{X<d>{}}(a, b);
+    else if constexpr (d != 4) return BilinearForm{X<d>{}}(a, b);
     else return BilinearForm{(T(2) - X<1>{}) + T(3) * X<2>{} - X<3>{} / T(2)}(a, b);
   }
 };
@@ -67,7 +67,7 @@ static void cases(Harness &H, const char *tn, const std::string &d0, const Grid<
         if (!H.take()) continue;
         size_t pa = Ka ? (pv == 0 ? Ka + 1 : pv == 1 ? Ka - 1 : pv == 2 ? 0 : Ka / 2) : 0;
         size_t pb = Kb ? (pv == 0 ? Kb + 1 : pv == 1 ? 0 : pv == 2 ? Kb - 1 : Kb + 1) : 0;
-        H.begin(std::string(tn) + ";" + d0 + ";n=" + std::to_string(n) + ";d=" + (d <= 3 ? std::to_string(d) : "cubic") + ";o" + std::to_string(oa) + "," + std::to_string(ob) + ";" + wstr(a) + ":" + pname(Ka, pa) + ";" + wstr(b) + ":" + pname(Kb, pb));
+        H.begin(std::string(tn) + ";" + d0 + ";n=" + std::to_string(n) + ";d=" + (d != 4 ? std::to_string(d) : "cubic") + ";o" + std::to_string(oa) + "," + std::to_string(ob) + ";" + wstr(a) + ":" + pname(Ka, pa) + ";" + wstr(b) + ":" + pname(Kb, pb));
         auto sa = mkspline_p<T, oa>(g, a, pa);
         auto sb = mkspline_p<T, ob>(g, b, pb);
         // exact reference and magnitude over the common intervals
@@ -161,6 +161,10 @@ static void per_n(Harness &H, const char *tn, const std::string &d0, const Grid<
   per_nd<T, n, 2>(H, tn, d0, g, pts, th);
   per_nd<T, n, 3>(H, tn, d0, g, pts, th);
   per_nd<T, n, 4>(H, tn, d0, g, pts, th);
+  if constexpr (n >= 4) {  // weights of degree 5 and 6 (exact from n = 4 resp. 6 for low orders)
+    per_nd<T, n, 5>(H, tn, d0, g, pts, th);
+    per_nd<T, n, 6>(H, tn, d0, g, pts, th);
+  }
 }
 template <class T>
 static void per_type(Harness &H, const char *tn) {
